@@ -139,7 +139,10 @@ def run(ctx):
     for cfg, rp, q in combos:
         cfg_model = None if cfg is None else ([] if cfg in ('simple-false', []) else cfg)
         cfg_py = None if cfg is None else (False if cfg == 'simple-false' else [seg_py(s) for s in cfg])
-        U = type('UCMM_verif', (ucmm.UCMM,), {'route_path': cfg_py})
+        # every other personality also has a route table - for a hop (9/9) that no request names, so every request stays local and the
+        # personality's filter must judge it exactly as without a table
+        combo_i = len(cases)
+        U = type('UCMM_verif', (ucmm.UCMM,), dict({'route_path': cfg_py}, **({'route': {'9/9': '127.0.0.1:9'}} if combo_i % 2 else {})))
         device.lookup_reset(); logix.setup_reset()
         im = L.Impl(488, tags)      # builds tags + default objects (setup() then keeps what exists)
         try:
